@@ -38,7 +38,7 @@ TFinish   == IsEvent("Finish") /\ Ok /\ Finish /\ Projected(Line)
 TReschedule == IsEvent("Reschedule") /\ Ok /\ Reschedule(Line.ts) /\ Projected(Line)
 TFollowUp == IsEvent("FollowUp") /\ Ok /\ FollowUp(Line.ts) /\ Projected(Line)
 TProcess == IsEvent("Process") /\ Ok /\ cur \in Recurring /\ FollowUp(now + 1) /\ Projected(Line)
-TLost == (IsEvent("Finish") \/ IsEvent("Reschedule")) /\ Line.res # "ok" /\ LostCurrent /\ Projected(Line)
+TLost == (IsEvent("Finish") \/ IsEvent("Reschedule")) /\ Ok /\ LostCurrent /\ Projected(Line)
 TProcessStart == IsEvent("ProcessStart") /\ Ok /\ ProcessStart /\ Projected(Line)
 TCrash    == IsEvent("Crash") /\ Ok /\ Crash /\ Projected(Line)
 TStartup  == IsEvent("Startup") /\ Ok /\ Startup /\ Projected(Line)
